@@ -114,6 +114,11 @@ impl TopDownContext<'_, '_> {
   /// - Its output type has not changed.
   /// - All its dependencies are consistent.
   fn check_task<O: Any>(&mut self, src: &TaskNode) -> Option<&O> {
+    if self.session.store.get_task_output(src).is_none() {
+      // New task, or task whose execution was aborted: it must be executed. Do not check dependencies left behind by an
+      // aborted execution (they are incomplete and may contain reserved require dependencies).
+      return None;
+    }
     let dependencies: Box<[Dependency]> = self.session.store
       .get_dependencies_from_task(src)
       .map(|d| d.clone())
